@@ -18,6 +18,7 @@
 #include <memory>
 #include <functional>
 
+#include <sys/mman.h>
 #include <igris/datastruct/sline.h>
 #include <igris/defs/vt100.h>
 #include <igris/shell/vterm.h>
@@ -35,7 +36,23 @@ namespace c15
     {
         hv::exact_buf b;
         struct sline s;
-        sline_c(unsigned cap) : b((size_t)cap) { sline_init(&s, (char *)b.p, cap); }
+        // (a 0-byte buffer is placed at the very end of a 1-byte allocation: any store through it is seen;
+        //  a buffer of 2^24 bytes and more is mapped lazily: only the pages the line touches exist)
+        void *big = 0;
+        size_t bigsz = 0;
+        sline_c(unsigned cap) : b(cap > (1u << 24) ? 1 : (size_t)cap, cap ? 0 : 1)
+        {
+            if (cap > (1u << 24))
+            {
+                bigsz = cap;
+                big = mmap(0, bigsz, PROT_READ | PROT_WRITE, MAP_PRIVATE | MAP_ANONYMOUS | MAP_NORESERVE, -1, 0);
+                if (big == MAP_FAILED) abort();
+                sline_init(&s, (char *)big, cap);
+            }
+            else
+                sline_init(&s, (char *)b.p, cap);
+        }
+        ~sline_c() { if (big) munmap(big, bigsz); }
         int putchar(uint8_t c) override { return sline_putchar(&s, (char)c); }
         int newdata(const std::string &d, bool &has_ret) override
         {
@@ -56,7 +73,11 @@ namespace c15
         int left() override { return sline_left(&s); }
         int right() override { return sline_right(&s); }
         void reset() override { sline_reset(&s); }
-        std::string getline() override { return std::string(sline_getline(&s)); }
+        std::string getline() override
+        {
+            const char *p = sline_getline(&s);
+            return s.cap ? std::string(p) : std::string(); // no buffer: nothing to read
+        }
         bool equal(const std::string &str) override
         {
             hv::exact_buf z(std::vector<uint8_t>(str.c_str(), str.c_str() + str.size() + 1));
@@ -73,7 +94,7 @@ namespace c15
         hv::exact_buf b, h;
         struct readline rl;
         unsigned depth;
-        readline_c(unsigned cap, unsigned depth_) : b((size_t)cap), h((size_t)cap * depth_), depth(depth_)
+        readline_c(unsigned cap, unsigned depth_) : b((size_t)cap, cap ? 0 : 1), h((size_t)cap * depth_, cap ? 0 : 1), depth(depth_)
         {
             readline_init(&rl, (char *)b.p, cap);
             if (depth)
@@ -88,8 +109,17 @@ namespace c15
         int state() override { return rl.state; }
         std::string tail() override
         {
+            // the ring as the C strings its slots hold (round 3: the bytes behind a slot's terminator are not
+            // fixed by the property - a push that clears the slot first is as good)
+            std::string slots;
+            unsigned cap = rl.line.cap;
+            for (unsigned i = 0; i < depth && cap; i++)
+            {
+                size_t n = strnlen((const char *)h.p + (size_t)i * cap, cap);
+                slots += (i ? "." : "") + hex(h.p + (size_t)i * cap, n);
+            }
             return " H" + std::to_string(rl.headhist) + "," + std::to_string(rl.curhist) + "," + std::to_string(rl.state) +
-                   "," + (depth ? hex(h.p, h.n) : std::string("-"));
+                   "," + (depth && cap ? slots : std::string("-"));
         }
     };
     ireadline *make_readline_c(unsigned cap, unsigned depth) { return new readline_c(cap, depth); }
@@ -114,6 +144,10 @@ namespace c15
         }
         void init_step() override { vterm_automate_init_step(&v); }
         void key(uint8_t c) override { vterm_automate_newdata(&v, (int16_t)c); }
+        void key16(int16_t c) override { vterm_automate_newdata(&v, c); }
+        std::string pstore;
+        void set_prompt(const std::string &p) override { pstore = p; v.prefix_string = pstore.c_str(); } // the C API has no setter
+        void set_echo(bool e) override { v.echo = e ? 1 : 0; }
         int state() override { return v.state; }
         int rlstate() override { return v.rl.state; }
         unsigned len() override { return v.rl.line.len; }
@@ -133,6 +167,28 @@ namespace c15
                        READLINE_DELETE, READLINE_UPDATELINE, READLINE_LEFT, READLINE_RIGHT};
         for (int c : codes)
             s += " " + std::to_string(c);
+        return s;
+    }
+}
+
+namespace c15
+{
+    // widths and constants the model embeds (Drv.lean consts2Line)
+    std::string consts2_c()
+    {
+        struct sline sl;
+        struct readline rl;
+        struct vterm_automate vt;
+        char b[16];
+        int n = vt100_left(b, 2147483647);
+        std::string s;
+        size_t v[] = {sizeof sl.cap, sizeof sl.len, sizeof sl.cursor, sizeof rl.state, sizeof rl.last, sizeof rl.lastsize,
+                      sizeof rl.history_size, sizeof rl.headhist, sizeof rl.curhist, sizeof vt.state, sizeof vt.echo, sizeof(int16_t)};
+        for (size_t x : v) s += std::to_string(x) + " ";
+        s += std::to_string(VTERM_INIT_STEP) + " " + std::to_string(READLINE_STATE_NORMAL) + " " + std::to_string(READLINE_STATE_ESCSEQ) + " " +
+             std::to_string(READLINE_STATE_ESCSEQ_MOVE) + " " + std::to_string(READLINE_STATE_ESCSEQ_MOVE_WAIT_7E) + " " +
+             std::to_string((char)-1 < 0 ? 1 : 0) + " " + consts2_x() + " " + std::to_string(n);
+        (void)sl; (void)rl; (void)vt;
         return s;
     }
 }
@@ -326,6 +382,71 @@ struct ref_screen
     }
 };
 
+// A terminal with W columns and auto-wrap (xterm / VT100 with DECAWM on), as a grid: a glyph in the last column
+// leaves the cursor there with the wrap pending; the next glyph goes to column 0 of the next row.  CUB / CUF stay on
+// the row.  Written on its own (grid + cursor), shares nothing with the Lean WScreen.
+struct wterm
+{
+    size_t W;
+    std::vector<std::string> grid{std::string()};
+    size_t r = 0, c = 0;
+    bool pend = false;
+    int st = 0;
+    long arg = -1;
+    explicit wterm(size_t w) : W(w) {}
+    void glyph(char b)
+    {
+        if (pend)
+        {
+            r++;
+            if (r == grid.size()) grid.push_back(std::string());
+            c = 0;
+            pend = false;
+        }
+        std::string &row = grid[r];
+        if (c > row.size()) row.append(c - row.size(), ' ');
+        if (c == row.size()) row.push_back(b);
+        else row[c] = b;
+        if (c + 1 < W) c++;
+        else pend = true;
+    }
+    void put(uint8_t b)
+    {
+        if (st == 0)
+        {
+            if (b == 27) st = 1;
+            else if (b == '\r') { c = 0; pend = false; }
+            else if (b == '\n')
+            {
+                r++;
+                if (r == grid.size()) grid.push_back(std::string());
+                pend = false;
+            }
+            else if (b == 8) { if (c) c--; pend = false; }
+            else if (b >= 0x20 && b <= 0x7e) glyph((char)b);
+        }
+        else if (st == 1)
+        {
+            if (b == '[') { st = 2; arg = -1; }
+            else st = 0;
+        }
+        else
+        {
+            if (b >= '0' && b <= '9') arg = (arg < 0 ? 0 : arg) * 10 + (b - '0');
+            else
+            {
+                size_t n = arg <= 0 ? 1 : (size_t)arg;
+                if (b == 'D') { c = n > c ? 0 : c - n; pend = false; }
+                else if (b == 'C') { c = c + n < W ? c + n : W - 1; pend = false; }
+                else if (b == 'K') { if (c < grid[r].size()) grid[r].resize(c); }
+                st = 0;
+            }
+        }
+    }
+    void feed(const std::string &s) { for (unsigned char ch : s) put(ch); }
+    std::string show() const { return std::to_string(r) + "," + std::to_string(c) + "," + (pend ? "1" : "0") + "," + hex(grid[r]); }
+};
+
 // Second, decoder-free oracle (the grammar of lean/IgrisModel/C15/Keys.lean): the typed bytes are cut into key
 // presses (level 1: Enter = CR | LF | CR LF | LF CR, Ctrl-C transparent for the pairing; level 2: ESC [ A/B/C/D,
 // ESC [ 3 x, unknown ESC x / ESC [ x ignored, Ctrl-C aborts a sequence) and a key-press editor consumes them.
@@ -395,7 +516,6 @@ struct key_editor
     }
 };
 
-static const std::string PROMPT = "$ ";
 
 static bool screen_safe(uint8_t c) { return (c >= 0x20 && c <= 0x7e) || c == 8 || c == 13 || c == 10 || c == 27 || c == 3; }
 
@@ -405,8 +525,9 @@ struct session
     std::unique_ptr<ivterm> v;
     ref_editor ref;
     ref_screen scr;
-    bool cxx, echo, safe = true, pending_prompt = false;
+    bool cxx, echo, safe = true, pending_prompt = true; // nothing is printed before the first call
     unsigned cap;
+    std::string prompt_now = "$ ", PROMPT = "$ "; // what set_prompt stored last / what the current row starts with
     std::string fail;
     bool want_record = true;
     unsigned tagbits = 0;
@@ -458,10 +579,38 @@ struct session
         : v(cxx_ ? make_vterm_x(cap_, depth, echo_) : make_vterm_c(cap_, depth, echo_)), ref(cap_, depth, true), cxx(cxx_), echo(echo_), cap(cap_)
     {
     }
+    static bool printable(const std::string &p)
+    {
+        for (unsigned char ch : p) if (ch < 0x20 || ch > 0x7e) return false;
+        return true;
+    }
+    void set_prompt(const std::string &p)
+    {
+        prompt_now = p;
+        v->set_prompt(p);
+    }
+    void set_echo(bool e)
+    {
+        echo = e;
+        safe = false; // the screen has missed (or will miss) output: only lines, events, bounds are judged from here on
+        v->set_echo(e);
+    }
+    void prompt_printed()
+    {
+        PROMPT = prompt_now;
+        if (!printable(PROMPT)) safe = false; // a prompt the screen cannot show (witness theorem)
+    }
     std::string init_step()
     {
         v->echoed.clear();
+        v->evs.clear();
+        bool owed = pending_prompt;
         v->init_step();
+        if (owed) prompt_printed();
+        pending_prompt = false;
+        if (!v->evs.empty()) bad("callback event during an init step", keys);
+        if (echo ? v->echoed != (owed ? PROMPT : std::string()) : !v->echoed.empty())
+            bad("init step wrote '" + hex(v->echoed) + "'", keys);
         scr.feed(v->echoed);
         check_screen();
         return v->echoed;
@@ -479,9 +628,11 @@ struct session
         else if (scr.col != wcol)
             bad("screen cursor column " + std::to_string(scr.col) + " != " + std::to_string(wcol), keys);
     }
-    // returns the canonical record of this key
-    std::string key(uint8_t c)
+    // returns the canonical record of this key.  mode 0: (int16_t)(unsigned char)c; mode 1: the byte held in a
+    // `char` and passed as it is (what igris' own callers do); mode 2: the int16_t `raw` (c = its low 8 bits)
+    std::string key(uint8_t c, int mode = 0, int16_t raw = 0)
     {
+        if (pending_prompt) prompt_printed(); // the call starts with the prologue
         keys.push_back((char)c);
         if (!screen_safe(c))
             safe = false;
@@ -491,7 +642,13 @@ struct session
         bool midline = !ref.right.empty();
         bool full = ref.len() + 1 >= cap;
         int esc_before = ref.esc;
-        v->key(c);
+        if (mode == 0) v->key(c);
+        else if (mode == 1)
+        {
+            char ch = (char)c;
+            v->key16(ch);
+        }
+        else v->key16(raw);
         for (auto &e : v->evs) allev.push_back(e.exec ? "X" + hex(e.line) : std::string("S"));
         std::string acc;
         int r = ref.key(c, acc);
@@ -557,6 +714,7 @@ struct session
             bad("echo is off but " + std::to_string(v->echoed.size()) + " bytes were written", keys);
         // ---- screen
         pending_prompt = cxx && r == 1;
+        if (r == 2 || (r == 1 && !cxx)) prompt_printed(); // the new prompt ends this call's output
         scr.feed(v->echoed);
         check_screen();
         // ---- coverage markers
@@ -650,7 +808,7 @@ static void run_sl(const std::vector<std::string> &w, out &o)
             std::string ds(d.begin(), d.end());
             bool has = false;
             int r = s->newdata(ds, has);
-            size_t room = cap - 1 - (L.size() + R.size());
+            size_t room = cap ? cap - 1 - (L.size() + R.size()) : 0;
             size_t k = std::min(room, ds.size());
             L += ds.substr(0, k);
             if (has && r != (int)k) fail("newdata result");
@@ -669,7 +827,7 @@ static void run_sl(const std::vector<std::string> &w, out &o)
             std::string ds(d.begin(), d.end());
             bool has = false;
             int r = s->newdata_n(ds, n, has);
-            size_t room = cap - 1 - (L.size() + R.size());
+            size_t room = cap ? cap - 1 - (L.size() + R.size()) : 0;
             size_t k = n <= 0 ? 0 : std::min(room, (size_t)n);
             L += ds.substr(0, k);
             if (has && r != (int)k) fail("newdata result " + std::to_string(r) + ", " + std::to_string(k) + " characters fit");
@@ -677,6 +835,22 @@ static void run_sl(const std::vector<std::string> &w, out &o)
             if (n == 0) o.tag("newdata-zero-len");
             if (k && !R.empty()) o.tag("bulk-insert-midline");
             ret = has ? std::to_string(r) : "v";
+            break;
+        }
+        case 'Z':
+        {
+            // Z<size>:<hex>  igris::sline::newdata(data, size) with the size_t as given (the data has at least
+            // as many bytes as can be inserted)
+            size_t colon = arg.find(':');
+            size_t sz = (size_t)strtoull(arg.substr(0, colon).c_str(), 0, 10);
+            auto d = hv::unhex(arg.substr(colon + 1));
+            std::string ds(d.begin(), d.end());
+            if (!s->newdata_sz(ds, sz)) { o.result = "bad-op"; return; }
+            size_t room = cap ? cap - 1 - (L.size() + R.size()) : 0;
+            size_t k = std::min(room, sz);
+            L += ds.substr(0, k);
+            o.tag(sz >= (1ull << 31) ? "newdata-size-ge-2^31" : "newdata-size_t");
+            ret = "v";
             break;
         }
         case 'c':
@@ -786,12 +960,16 @@ static void run_sl(const std::vector<std::string> &w, out &o)
             return;
         }
         unsigned len = s->len(), cur = s->cursor();
-        if (!(cur <= len && len < cap))
+        // a line without a buffer (cap 0, outside the property's quantifier) must stay the empty line
+        if (cap == 0 ? !(len == 0 && cur == 0) : !(cur <= len && len < cap))
             fail("bounds: cursor " + std::to_string(cur) + " len " + std::to_string(len) + " cap " + std::to_string(cap));
         else if (s->text() != L + R || cur != L.size())
             fail("line '" + hex(s->text()) + "' cursor " + std::to_string(cur) + " != reference '" + hex(L + R) + "' cursor " + std::to_string(L.size()));
         res += (res.empty() ? "" : " ") + ret + "," + std::to_string(len) + "," + std::to_string(cur) + "," + hex(s->text());
     }
+    if (cap == 0) o.tag("capacity-zero");
+    if (cap == 1) o.tag("capacity-one");
+    if (cap > (1u << 24)) o.tag(cap >= (1u << 31) ? "capacity-ge-2^31" : "capacity-large");
     o.result = res.empty() ? "-" : res;
 }
 
@@ -962,6 +1140,284 @@ static void run_vtx(const std::vector<std::string> &w, out &o)
     o.tag("tree");
 }
 
+
+// vs <c|x> <cap> <depth> <token>...   one terminal object, everything a caller can do between keys:
+//   k<hex> keys as (int16_t)(unsigned char)   c<hex> keys held in a `char` (the call path of igris' own callers)
+//   i<int> a raw int16_t   I init step   P<hex> set_prompt   E0 / E1 set_echo
+static void run_vs(const std::vector<std::string> &w, out &o)
+{
+    bool cxx = w[1] == "x";
+    unsigned cap = (unsigned)strtoul(w[2].c_str(), 0, 10), depth = (unsigned)strtoul(w[3].c_str(), 0, 10);
+    session s(cxx, cap, depth, true);
+    std::string res;
+    auto add = [&](const std::string &r) { res += (res.empty() ? "" : " ") + r; };
+    for (size_t i = 4; i < w.size(); i++)
+    {
+        const std::string &t = w[i];
+        std::string arg = t.substr(1);
+        switch (t[0])
+        {
+        case 'k':
+            for (uint8_t c : hv::unhex(arg)) add(s.key(c));
+            break;
+        case 'c':
+            for (uint8_t c : hv::unhex(arg))
+            {
+                add(s.key(c, 1));
+                o.tag(c >= 0x80 ? "char-path-high-byte" : "char-path");
+            }
+            break;
+        case 'i':
+        {
+            long v = strtol(arg.c_str(), 0, 10);
+            if (v == -1) add("I" + hex(s.init_step()));
+            else
+            {
+                add(s.key((uint8_t)(v & 0xff), 2, (int16_t)v));
+                o.tag(v < 0 ? "int16-negative" : v > 255 ? "int16-above-255" : "int16");
+            }
+            break;
+        }
+        case 'I':
+            add("I" + hex(s.init_step()));
+            o.tag("init-step-midway");
+            break;
+        case 'P':
+        {
+            auto d = hv::unhex(arg);
+            std::string p(d.begin(), d.end());
+            s.set_prompt(p);
+            add("=");
+            o.tag(session::printable(p) ? "set-prompt" : "set-prompt-unprintable");
+            break;
+        }
+        case 'E':
+            s.set_echo(arg != "0");
+            add("=");
+            o.tag("set-echo");
+            break;
+        default:
+            o.result = "bad-op";
+            return;
+        }
+    }
+    s.check_grammar(depth);
+    o.result = res.empty() ? "-" : res;
+    if (!s.fail.empty()) o.fail(s.fail);
+    if (!s.tagbits) return;
+    std::string ts = session::tagstr(s.tagbits);
+    o.tags += (o.tags.empty() ? "" : ",") + ts;
+}
+
+// vw <c|x> <cap> <depth> <W> <strict> <keys-hex>: the echoed bytes on a W-column terminal with auto-wrap.
+// Oracle: W >= |prompt| + cap: current row = prompt + line, column = |prompt| + cursor, no wrap pending after every
+// key.  strict = 1: for ANY W the rows since the prompt must be the text cut every W glyphs (a correct wrapped
+// display) - fails on narrow terminals (finding C15-narrow-screen).
+static void run_vw(const std::vector<std::string> &w, out &o)
+{
+    bool cxx = w[1] == "x";
+    unsigned cap = (unsigned)strtoul(w[2].c_str(), 0, 10), depth = (unsigned)strtoul(w[3].c_str(), 0, 10);
+    size_t W = strtoul(w[4].c_str(), 0, 10);
+    bool strict = w[5] == "1";
+    auto keys = hv::unhex(w[6]);
+    if (W < 2) { o.result = "bad-op"; return; }
+    session s(cxx, cap, depth, true);
+    wterm t(W);
+    t.feed(s.init_step());
+    size_t base = t.r; // grid row the current prompt starts on
+    std::string res = "I" + t.show();
+    bool fits = W >= s.PROMPT.size() + cap;
+    std::string fail;
+    bool wrapped = false;
+    for (uint8_t c : keys)
+    {
+        bool owed = s.pending_prompt;
+        s.key(c);
+        if (owed) base = t.r;
+        t.feed(s.v->echoed);
+        if (c == 3 || (s.last_accept && !s.cxx)) base = t.r; // this call ended with a new prompt
+        res += " " + t.show();
+        if (t.r > base) wrapped = true;
+        if (!s.safe || !fail.empty()) continue;
+        std::string text = (s.pending_prompt ? std::string() : s.PROMPT) + s.ref.line();
+        size_t idx = (s.pending_prompt ? 0 : s.PROMPT.size()) + s.ref.left.size();
+        if (fits)
+        {
+            if (t.grid[t.r] != text || t.c != idx || t.pend)
+                fail = "on " + std::to_string(W) + " columns the row is '" + t.grid[t.r] + "' column " + std::to_string(t.c) + (t.pend ? " (wrap pending)" : "") +
+                       ", expected '" + text + "' column " + std::to_string(idx) + " after keys " + hex(s.keys);
+        }
+        else if (strict)
+        {
+            // a correct wrapped display: rows base.. = text cut every W glyphs
+            std::vector<std::string> want;
+            for (size_t i = 0; i < text.size() || i == 0; i += W) want.push_back(text.substr(i, W));
+            std::vector<std::string> got(t.grid.begin() + base, t.grid.end());
+            while (got.size() > want.size() && got.back().empty()) got.pop_back();
+            if (got != want)
+            {
+                std::string g, x;
+                for (auto &r : got) g += "'" + r + "' ";
+                for (auto &r : want) x += "'" + r + "' ";
+                fail = "on " + std::to_string(W) + " columns the rows are " + g + "- a correct display of prompt + line shows " + x + "after keys " + hex(s.keys);
+            }
+        }
+    }
+    o.result = res;
+    if (!s.fail.empty()) o.fail(s.fail);
+    else if (!fail.empty()) o.fail(fail);
+    o.tag(fits ? (W == s.PROMPT.size() + cap ? "wterm-exact-fit" : "wterm-fits") : "wterm-narrow");
+    if (wrapped) o.tag("wterm-wrapped");
+}
+
+// lh <c|x> <cap> <depth> <maxlen> <keys-hex>: readline_linecpy with a HUGE maxlen (2^31 - 1 .. 2^32 + 1): the
+// destination really has maxlen bytes (lazily mapped); result: return value + the first min(maxlen, cap + 2) bytes
+#include <sys/mman.h>
+static void run_lh(const std::vector<std::string> &w, out &o)
+{
+    bool cxx = w[1] == "x";
+    unsigned cap = (unsigned)strtoul(w[2].c_str(), 0, 10), depth = (unsigned)strtoul(w[3].c_str(), 0, 10);
+    size_t maxlen = (size_t)strtoull(w[4].c_str(), 0, 10);
+    auto keys = hv::unhex(w[5]);
+    std::unique_ptr<ireadline> rl(cxx ? make_readline_x(cap, depth) : make_readline_c(cap, depth));
+    ref_editor ref(cap, depth, false);
+    for (uint8_t c : keys)
+    {
+        int ret = rl->putchar(c);
+        std::string acc;
+        ref.key(c, acc);
+        if (ret == READLINE_NEWLINE) { rl->newline_reset(); ref.fresh_line(); }
+    }
+    size_t shown = std::min<size_t>(maxlen, cap + 2);
+    void *m = mmap(0, maxlen ? maxlen : 1, PROT_READ | PROT_WRITE, MAP_PRIVATE | MAP_ANONYMOUS | MAP_NORESERVE, -1, 0);
+    if (m == MAP_FAILED) { o.result = "bad-op"; return; }
+    uint8_t *dst = (uint8_t *)m;
+    memset(dst, 0xAA, shown);
+    int n = rl->linecpy((char *)dst, maxlen);
+    std::string line = ref.line();
+    size_t want = maxlen == 0 ? 0 : std::min(line.size(), maxlen - 1);
+    if (n != (int)want) o.fail("linecpy(maxlen " + std::to_string(maxlen) + ") returned " + std::to_string(n) + ", min(len, maxlen - 1) = " + std::to_string(want));
+    else if (maxlen && (memcmp(dst, line.data(), want) != 0 || dst[want] != 0)) o.fail("linecpy: copied characters / terminator differ from the reference line");
+    o.result = std::to_string(n) + " " + hex(dst, shown);
+    munmap(m, maxlen ? maxlen : 1);
+    o.tag(maxlen >= (1ull << 32) ? "linecpy-maxlen-ge-2^32" : maxlen >= (1ull << 31) ? "linecpy-maxlen-ge-2^31" : "linecpy-maxlen-large");
+}
+
+// the session run BEFORE main() by a static object of the highest priority: the library must not depend on the
+// initialisation of any other static object
+static const char PREMAIN_KEYS[] = "ab\r\x1b[Ac\x1b[Dd\n\x03\x1b[A\x1b[A\r";
+struct premain_t
+{
+    std::string result, fail;
+    premain_t()
+    {
+        for (int var = 0; var < 2; var++)
+        {
+            session s(var == 1, 4, 2, true);
+            std::string res = "I" + hex(s.init_step());
+            for (const char *p = PREMAIN_KEYS; *p; p++) res += " " + s.key((uint8_t)*p);
+            s.check_grammar(2);
+            result += (var ? " | " : "") + res;
+            if (!s.fail.empty() && fail.empty()) fail = s.fail;
+        }
+    }
+};
+static premain_t premain_obj __attribute__((init_priority(101)));
+
+// tw <cap> <depth> <echo> <keys-hex>: vterm.c and igris::vtermxx side by side, compared DIRECTLY with each other
+// (events, line, cursor after every key; written bytes equal up to the prompt vtermxx still owes)
+static void run_tw(const std::vector<std::string> &w, out &o)
+{
+    unsigned cap = (unsigned)strtoul(w[1].c_str(), 0, 10), depth = (unsigned)strtoul(w[2].c_str(), 0, 10);
+    bool echo = w[3] != "0";
+    auto keys = hv::unhex(w[4]);
+    session a(false, cap, depth, echo), b(true, cap, depth, echo);
+    std::string res = "I" + hex(a.init_step());
+    std::string wa = a.v->echoed, wb;
+    b.init_step();
+    wb = b.v->echoed;
+    std::string sofar, fail;
+    for (uint8_t c : keys)
+    {
+        sofar.push_back((char)c);
+        res += " " + a.key(c);
+        b.key(c);
+        wa += a.v->echoed;
+        wb += b.v->echoed;
+        if (!fail.empty()) continue;
+        auto evs = [](ivterm &v) { std::string s; for (auto &e : v.evs) s += e.exec ? "X" + hex(e.line) + ";" : "S;"; return s; };
+        bool owes = b.pending_prompt;
+        if (evs(*a.v) != evs(*b.v)) fail = "callback events differ: vterm.c " + evs(*a.v) + " vtermxx " + evs(*b.v);
+        else if (!owes && (a.v->text() != b.v->text() || a.v->cursor() != b.v->cursor())) fail = "line / cursor differ: vterm.c '" + hex(a.v->text()) + "' vtermxx '" + hex(b.v->text()) + "'";
+        else if (wa != wb + (owes && echo ? b.prompt_now : std::string())) fail = "written bytes differ (beyond the prompt vtermxx owes)";
+        else if (a.v->rlstate() != b.v->rlstate() && !owes) fail = "escape states differ";
+        if (!fail.empty()) fail += " after keys " + hex(sofar);
+    }
+    o.result = res;
+    if (!a.fail.empty()) o.fail(a.fail);
+    else if (!b.fail.empty()) o.fail(b.fail);
+    else if (!fail.empty()) o.fail("twins: " + fail);
+    o.tags = session::tagstr(a.tagbits);
+    o.tag("twins");
+}
+
+// ts <cap> <op>...: struct sline and igris::sline side by side on the same calls (tokens of `sl` both families have)
+static void run_ts(const std::vector<std::string> &w, out &o)
+{
+    unsigned cap = (unsigned)strtoul(w[1].c_str(), 0, 10);
+    std::vector<std::string> wc = {"sl", "c", w[1]}, wx = {"sl", "x", w[1]};
+    for (size_t i = 2; i < w.size(); i++) { wc.push_back(w[i]); wx.push_back(w[i]); }
+    out oc, ox;
+    run_sl(wc, oc);
+    run_sl(wx, ox);
+    // the C family reports sline_newdata's return value, igris::sline::newdata returns nothing: compare the rest
+    auto strip = [](const std::string &r)
+    {
+        std::string s;
+        size_t i = 0;
+        while (i < r.size())
+        {
+            size_t e = r.find(' ', i);
+            if (e == std::string::npos) e = r.size();
+            std::string t = r.substr(i, e - i);
+            s += t.substr(t.find(',')) + " ";
+            i = e + 1;
+        }
+        return s;
+    };
+    o.result = ox.result;
+    o.oracle = oc.oracle != "ok" ? oc.oracle : ox.oracle;
+    if (o.oracle == "ok" && strip(oc.result) != strip(ox.result)) o.fail("twins: struct sline '" + oc.result + "' != igris::sline '" + ox.result + "'");
+    o.tags = ox.tags;
+    o.tag("sline-twins");
+    (void)cap;
+}
+
+// vl <c|x> <cap> <depth> <n> <seed>: one LONG session (n keys from a small LCG over the 15-byte alphabet, the same
+// generator is in Drv.lean), compared by the FNV-1a digest of every key's record
+static void run_vl(const std::vector<std::string> &w, out &o)
+{
+    bool cxx = w[1] == "x";
+    unsigned cap = (unsigned)strtoul(w[2].c_str(), 0, 10), depth = (unsigned)strtoul(w[3].c_str(), 0, 10);
+    size_t n = strtoul(w[4].c_str(), 0, 10);
+    uint64_t st = strtoull(w[5].c_str(), 0, 10);
+    session s(cxx, cap, depth, true);
+    s.want_record = false;
+    fnv d;
+    d.bytes(s.init_step());
+    for (size_t i = 0; i < n; i++)
+    {
+        st = (st * 1103515245ull + 12345ull) % 2147483648ull;
+        s.key((uint8_t)ALPHA_BYTES[(st / 65536) % 15][0]);
+        d.key(*s.v);
+    }
+    s.check_grammar(depth);
+    o.result = std::to_string(n) + " " + hv::hexn(d.h, 16);
+    if (!s.fail.empty()) o.fail(s.fail);
+    o.tags = session::tagstr(s.tagbits);
+    o.tag(n >= 300 * 1024 ? "long-session-300KiB" : "long-session");
+}
+
 static void run_op(const std::vector<std::string> &w, const std::string &, out &o)
 {
     if (w.empty()) { o.result = "bad-op"; return; }
@@ -973,6 +1429,21 @@ static void run_op(const std::vector<std::string> &w, const std::string &, out &
     if (op == "lc" && w.size() == 6) return run_lc(w, o);
     if (op == "vt" && w.size() == 6) return run_vt(w, o);
     if (op == "vtx" && w.size() == 7) return run_vtx(w, o);
+    if (op == "vl" && w.size() == 6) return run_vl(w, o);
+    if (op == "vs" && w.size() >= 4) return run_vs(w, o);
+    if (op == "vw" && w.size() == 7) return run_vw(w, o);
+    if (op == "lh" && w.size() == 6) return run_lh(w, o);
+    if (op == "tw" && w.size() == 5) return run_tw(w, o);
+    if (op == "ts" && w.size() >= 2) return run_ts(w, o);
+    if (op == "consts2") { o.result = consts2_c(); return; }
+    if (op == "premain" && w.size() == 2)
+    {
+        if (w[1] != hex(std::string(PREMAIN_KEYS))) { o.result = "bad-op"; return; }
+        o.result = premain_obj.result;
+        if (!premain_obj.fail.empty()) o.fail("before main(): " + premain_obj.fail);
+        o.tag("before-main");
+        return;
+    }
     o.result = "bad-op";
 }
 
@@ -1052,8 +1523,8 @@ static void gen(hv::rng &r, const std::string &tier)
     const char *VAR[2] = {"c", "x"};
     emit("consts");
     // capacity 0 is outside the contract (sline_getline needs one byte for the terminator): recorded finding
-    emit("@F:C15-capacity-zero sl c 0 p61");
-    emit("@F:C15-capacity-zero sl x 0 g");
+    // (the two probes `sl c 0 p61`, `sl x 0 g` of the capacity-zero finding are ordinary ops since the sline half
+    //  was repaired: see round 3 below)
     // ---- sline: exhaustive short op histories, then long random ones
     // (the seed picks the capacity that gets the deepest tree, see the key trees below)
     for (unsigned cap = 2; cap <= 4; cap++)
@@ -1242,6 +1713,182 @@ static void gen(hv::rng &r, const std::string &tier)
         }
         emit(std::string("vt ") + VAR[i < NFIX && i >= 12 ? (i & 1) : r.below(2)] + " " + std::to_string(cap) + " " + std::to_string(depth) + " 1 " + hx(k));
     }
+
+    // =================================================================== round 3
+    emit("consts2");
+    emit("premain " + hx(std::string(PREMAIN_KEYS)));
+    // ---- a line without a buffer (cap 0: safe at the sline level since the two fixes) and the smallest buffer (cap 1)
+    emit("sl c 0 p61");
+    emit("sl x 0 g");
+    emit("sl c 0 p61 g N2:6162 n6162 b1 d1 l r z g e-");
+    emit("sl x 0 p61 g n6162 b1 d1 l r z c g");
+    emit("@F:C15-capacity-zero rl c 0 1 1b5b41");
+    gen_sl_exhaustive(0, 3, "c");
+    gen_sl_exhaustive(0, 2, "x");
+    gen_sl_exhaustive(1, 3, "c");
+    gen_sl_exhaustive(1, 3, "x");
+    // ---- buffers of 2^31 - 1 .. 2^32 - 1 bytes (lazily mapped; the line stays short): every call but the bulk
+    //      insert, which misjudges the room there (finding C15-newdata-2g); the bulk insert just below 2^31
+    for (const char *cap : {"2147483647", "2147483648", "2147483649", "4294967295"})
+        emit(std::string("sl c ") + cap + " p61 p62 p63 l l p64 b1 d1 r g e6164 z p65 g");
+    emit("sl c 2147483647 p61 N2:6263 n6465 l N1:66 g");
+    emit("sl c 16777217 p61 N2:6263 n6465 l N1:66 N-1:67 g");
+    emit("sl x 4 Z2:616263 Z2147483647:61626364 g");
+    emit("sl x 6 p61 l Z1:6263 Z0:64 Z2147483647:6566676869 g");
+    emit("@F:C15-newdata-2g sl c 2147483649 N2:6162");
+    emit("@F:C15-newdata-2g sl c 2147483648 N1:62");
+    emit("@F:C15-newdata-2g sl x 4 Z2147483648:61626364");
+    // ---- twins, directly against each other: struct sline / igris::sline on the same calls
+    {
+        static const std::vector<std::string> tk = {"p61", "p62", "n6364", "n65666768", "N1:6364", "N-1:63", "b1", "d1", "l", "r", "z", "g", "e61"};
+        for (unsigned cap = 2; cap <= 3; cap++)
+            for (size_t a = 0; a < tk.size(); a++)
+                for (size_t b = 0; b < tk.size(); b++)
+                    for (size_t c = 0; c < tk.size(); c++)
+                        emit("ts " + std::to_string(cap) + " " + tk[a] + " " + tk[b] + " " + tk[c]);
+        for (int i = 0; i < (th ? 1500 : 250); i++)
+        {
+            unsigned cap = (unsigned)r.range(1, 12);
+            std::string s = "ts " + std::to_string(cap);
+            size_t n = r.range(1, 40);
+            for (size_t j = 0; j < n; j++)
+            {
+                unsigned p = (unsigned)r.below(100);
+                if (p < 30) s += " p" + hv::hexn(r.range(0x61, 0x7a), 2);
+                else if (p < 45)
+                {
+                    size_t m = r.chance(30) ? r.range(cap - 1, cap + 3) : r.range(0, 4);
+                    std::string d;
+                    for (size_t q = 0; q < m; q++) d.push_back((char)r.range(0x41, 0x5a));
+                    s += (r.chance(50) ? " n" + hx(d) : " N" + std::to_string((long)r.below(m + 2) - 1) + ":" + hx(d + "Z"));
+                }
+                else if (p < 55) s += " b" + std::to_string(r.range(0, 3));
+                else if (p < 65) s += " d" + std::to_string(r.range(0, 3));
+                else if (p < 80) s += " l";
+                else if (p < 90) s += " r";
+                else if (p < 93) s += " z";
+                else s += " g";
+            }
+            emit(s);
+        }
+    }
+    // ---- vterm.c / igris::vtermxx directly against each other (every pair of the byte alphabet, random sessions,
+    //      history depth 0 = no history included)
+    for (size_t a = 0; a < 15; a++)
+        for (size_t b = 0; b < 15; b++)
+            emit("tw 3 1 1 " + hx(ALPHA_BYTES[a] + ALPHA_BYTES[b]));
+    for (int i = 0; i < (th ? 1500 : 250); i++)
+    {
+        unsigned cap = (unsigned)r.range(2, 12), depth = (unsigned)r.range(r.chance(15) ? 0 : 1, 4);
+        size_t n = r.chance(5) ? 300 : r.range(1, 80);
+        std::string k = r.chance(80) ? typing(r, cap, depth ? depth : 1, n, r.chance(25)) : noise(r, n);
+        emit("tw " + std::to_string(cap) + " " + std::to_string(depth) + (r.chance(6) ? " 0 " : " 1 ") + hx(k));
+    }
+    // ---- history depth 0: vterm_automate_init(..., hbuffer, 0) / vtermxx::init(cap, 0) = a terminal without history
+    for (int var = 0; var < 2; var++)
+    {
+        emit(std::string("vt ") + VAR[var] + " 4 0 1 " + hx("ab\rab\r\x1b[A\x1b[B" "c\r"));
+        emit(std::string("vt ") + VAR[var] + " 2 0 1 " + hx("a\r\n\x1b[A\x1b[A\x03" "b\n"));
+    }
+    for (int i = 0; i < (th ? 300 : 60); i++)
+    {
+        unsigned cap = (unsigned)r.range(2, 10);
+        std::string k = typing(r, cap, 2, r.range(1, 120), r.chance(25));
+        emit(std::string("vt ") + VAR[r.below(2)] + " " + std::to_string(cap) + " 0 1 " + hx(k));
+    }
+    // ---- one object, everything a caller can do between keys: every script of <= 3 (C++: 2) tokens, random scripts
+    {
+        static const std::vector<std::string> tk = {"k61", "cc3", "c80", "cfe", "c7f", "i-1", "i353", "i-128", "i-2", "i32767", "i-32768", "i256", "I",
+                                                    "P0724", "P3e", "P-", "E0", "E1", "k0d", "k03", "k1b5b41", "c0d"};
+        for (int var = 0; var < 2; var++)
+            for (size_t a = 0; a < tk.size(); a++)
+                for (size_t b = 0; b < tk.size(); b++)
+                {
+                    if (var) { emit("vs x 4 1 " + tk[a] + " " + tk[b] + " k620d"); continue; }
+                    for (size_t c = 0; c < tk.size(); c++)
+                        emit("vs c 4 1 " + tk[a] + " " + tk[b] + " " + tk[c] + " k620d");
+                }
+        emit("@F:C15-char-ff vs c 4 1 I cff k0d");
+        emit("@F:C15-char-ff vs x 4 1 k61 cff c0d");
+        for (int i = 0; i < (th ? 2500 : 500); i++)
+        {
+            unsigned cap = (unsigned)r.range(2, 12), depth = (unsigned)r.range(1, 3);
+            std::string s = std::string("vs ") + VAR[r.below(2)] + " " + std::to_string(cap) + " " + std::to_string(depth);
+            if (r.chance(70)) s += " I";
+            size_t n = r.range(1, 12);
+            for (size_t j = 0; j < n; j++)
+            {
+                unsigned p = (unsigned)r.below(100);
+                if (p < 35) s += " k" + hx(typing(r, cap, depth, r.range(1, 20), r.chance(25)));
+                else if (p < 60)
+                {
+                    // through a `char`: ASCII, Latin-1 / UTF-8 bytes (every value but 0xff, the recorded finding)
+                    std::string k;
+                    size_t m = r.range(1, 6);
+                    for (size_t q = 0; q < m; q++)
+                        k.push_back(r.chance(50) ? (char)r.range(0x80, 0xfe) : r.chance(30) ? "\r\n\x08\x1b[AD"[r.below(7)] : (char)r.range(0x20, 0x7e));
+                    s += " c" + hx(k);
+                }
+                else if (p < 70)
+                {
+                    static const long V[] = {-1, -2, -128, -129, -255, -256, -32768, 32767, 255, 256, 257, 0x141, 0x10d, 0x7f03, 127, 128, 0};
+                    s += " i" + std::to_string(r.chance(70) ? V[r.below(17)] : (long)r.range(0, 65535) - 32768);
+                }
+                else if (p < 78) s += " I";
+                else if (p < 90)
+                {
+                    std::string pr;
+                    size_t m = r.range(0, 5);
+                    for (size_t q = 0; q < m; q++) pr.push_back(r.chance(70) ? (char)r.range(0x20, 0x7e) : (char)r.range(1, 255));
+                    s += " P" + hx(pr);
+                }
+                else s += r.chance(50) ? " E0" : " E1";
+            }
+            // `i-1` typed as a token is the init step; a raw -1 produced above is handled the same way
+            emit(s);
+        }
+    }
+    // ---- the echoed bytes on a terminal with W columns and auto-wrap
+    {
+        auto wsess = [&](unsigned cap, size_t W, bool strict, const std::string &k, const char *pre = "")
+        {
+            emit(std::string(pre) + "vw " + VAR[r.below(2)] + " " + std::to_string(cap) + " " + std::to_string(r.range(1, 3)) + " " + std::to_string(W) + (strict ? " 1 " : " 0 ") + hx(k));
+        };
+        // full line, cursor walks, inserts in the middle, Ctrl-C at the end of a full line: the exact fit and around it
+        for (unsigned cap = 2; cap <= 6; cap++)
+            for (int dw = 0; dw <= 3; dw++)
+            {
+                std::string fill(cap + 1, 'a');
+                wsess(cap, 2 + cap + dw, false, fill + "\x03" + fill + "\x1b[D\x1b[D\x08" "b\x1b[3~\x1b[C\x1b[Cc\r" + fill + "\r\x1b[A\x1b[A\x03");
+            }
+        for (int i = 0; i < (th ? 2000 : 350); i++)
+        {
+            unsigned cap = (unsigned)r.range(2, 14);
+            static const size_t DW[] = {0, 0, 0, 1, 2, 3, 10, 66};
+            std::string k = typing(r, cap, 2, r.chance(10) ? 300 : r.range(5, 90), false);
+            wsess(cap, 2 + cap + DW[r.below(8)], false, k);
+        }
+        // narrower than prompt + line: the two terminal emulators (Lean / C++) are compared, the display is not judged
+        for (int i = 0; i < (th ? 600 : 100); i++)
+        {
+            unsigned cap = (unsigned)r.range(4, 30);
+            std::string k = typing(r, cap, 2, r.range(5, 120), false);
+            wsess(cap, r.range(2, 1 + cap), false, k);
+        }
+        emit("@F:C15-narrow-screen vw c 8 1 6 1 61626364651b5b441b5b4478");
+        emit("@F:C15-narrow-screen vw x 12 1 8 1 " + hx(std::string("abcdefghij\x1b[D\x1b[D\x1b[D\x1b[D\x1b[D\x08")));
+    }
+    // ---- readline_linecpy with a destination of 65535 .. 2^32 + 1 bytes
+    {
+        static const char *ML[] = {"255", "256", "65535", "65536", "1048576", "2147483647", "2147483648", "2147483649", "4294967295", "4294967296", "4294967297"};
+        for (const char *m : ML)
+            for (int var = 0; var < 2; var++)
+                for (unsigned typed = 0; typed <= 3; typed += 3)
+                    emit(std::string("lh ") + VAR[var] + " 5 1 " + m + " " + hx(std::string("abcdef").substr(0, typed + (typed ? 1 : 0))));
+    }
+    // ---- one long session (>= 300 KiB of keys) per variant
+    emit("vl c 6 3 310000 " + std::to_string(gen_seed));
+    emit("vl x 5 2 " + std::string(th ? "310000 " : "40000 ") + std::to_string(gen_seed + 7));
 }
 
 int main(int argc, char **argv)
